@@ -31,7 +31,7 @@ ASSUMPTIONS = [
 ]
 BUDGET = {"quick": 70, "thorough": 700}
 FLOORS = {"crash_points": {"quick": 3000, "thorough": 100000}, "directory_states_checked": {"quick": 3000, "thorough": 100000},
-          "depth2_states": {"quick": 1500, "thorough": 50000}, "real_kills": {"quick": 20, "thorough": 150}, "driver_saves": 8, "interrupt_points": 100, "driver_runs_stopped_by_sigint": 3}
+          "depth2_states": {"quick": 1500, "thorough": 50000}, "real_kills": {"quick": 20, "thorough": 150}, "driver_saves": 8, "interrupt_points": 100, "driver_runs_stopped_by_sigint": 3, "denied_temp_file_points": 2}
 
 NAME = "/ckpt/checkpoint.json"
 
@@ -60,6 +60,10 @@ def cases(tier, seed):
             out.append({"engine": "shim", "depth": 2, "bufsize": 1, "npar": 1, "k1_lo": int(k), "k1_hi": int(k) + 1})
     for i in range(60 if tier == "quick" else 1500):
         out.append({"engine": "shim", "depth": int(rng.integers(3, 5)), "bufsize": int(rng.choice([1, 16, 64])), "npar": int(rng.choice([1, 3])), "seed": int(rng.integers(2**31))})
+    # the temporary file cannot be created (a directory sits at its name, the name is too long, no space): the write fails - and
+    # whatever it does instead must not endanger the existing checkpoint either; every crash point of that
+    for bs in (1, 64):
+        out.append({"engine": "shim-denied", "bufsize": bs, "npar": 2})
     # real process death: both ends of the write (open, first writes, close, renames, remove) and interior points
     pos = [("abs", 0), ("abs", 1), ("abs", 2)] + [("end", j) for j in range(0, 6)]
     pos += [("frac", float(f)) for f in rng.uniform(0.02, 0.98, 6 if tier == "quick" else 120)]
@@ -240,6 +244,8 @@ def run_case(case):
                 judge(V, C, seen, files, f2, g | {v}, npar, step + 1, "path step %d killed before op %d/%d" % (step, k, n))
                 files = f2
             C["deep_paths"] += 1
+    elif eng == "shim-denied":
+        run_denied(case, V, C, seen)
     elif eng == "sigkill":
         run_sigkill(case, V, C, seen)
     else:
@@ -285,6 +291,31 @@ params = [Parameter("p%%d" %% i, torch.tensor([float(version), version + 0.25 * 
 pu.save_parameters(name, params)
 print("OPS", count[0])
 """
+
+
+def run_denied(case, V, C, seen):
+    from torchtree.core.parameter_utils import save_parameters
+
+    bs, npar = case["bufsize"], case["npar"]
+    good = json.dumps(encoded(1, npar), indent=2).encode()
+    before = {NAME: good}
+    k = 0
+    while True:
+        vfs = fsshim.VFS(dict(before), bs, crash_at=k, deny={NAME + ".new"})
+        outcome = "completed"
+        with fsshim.installed(vfs):
+            try:
+                save_parameters(NAME, params(2, npar))
+            except fsshim.Crash:
+                outcome = "crashed"
+            except OSError:
+                outcome = "failed"
+        C["crash_points"] += 1
+        C["denied_temp_file_points"] = C.get("denied_temp_file_points", 0) + 1
+        judge(V, C, seen, before, vfs.files, {1, 2}, npar, 1, "temporary file cannot be created, killed before operation %d (%s)" % (k, outcome))
+        if outcome != "crashed" or k > 5000:
+            break
+        k += 1
 
 
 def run_sigkill(case, V, C, seen):
@@ -455,6 +486,8 @@ def run_driver(case, V, C, seen):
                 except ValueError:
                     st[p_] = "truncated"
             seen.add(("driver", case["algorithm"]) + tuple(sorted(st.values())))
+            if st.get(NAME) == "truncated" or st.get(name) == "truncated":
+                V.append(tt.viol("C18:driver:name-truncated:%s:one-file-per-epoch" % alg, "%s run with checkpoint_all killed before operation %d/%d leaves a truncated file under the checkpoint name: %s" % (alg, k, total, st), state=st))
             if "complete" not in st.values():
                 V.append(tt.viol("C18:driver:no-complete-checkpoint:%s:one-file-per-epoch" % alg, "%s run with checkpoint_all and name %s killed before operation %d/%d leaves no complete checkpoint: %s" % (alg, os.path.basename(name), k, total, st), state=st))
             continue
